@@ -624,6 +624,54 @@ def rules(ck, P):
                     types[n["pat"]["name"]] = (p[0].get("ga") or "")
         ck.check(order_ok and args_ok, "R-NAME", fmt + "|reader", "reader strips the compression extension, then the format extension, and builds TileCoord3::new(x, y, z)",
                  "reader parses names in a different order (from_filename order %s, coordinate args ok=%s)" % (calls, args_ok), ir.loc(r))
+    # which path component becomes which coordinate (hid-based): tar z/x/y = components 0/1/2; directory z/x/y = nesting depth 1/2/3
+    tr_ = fn(P, "tar::reader::TarTilesReader::open_path")
+    dr_ = fn(P, "directory::reader::DirectoryTilesReader::open_path")
+    for fmt, r in (("tar", tr_), ("directory", dr_)):
+        if r is None:
+            continue
+        tc = [n for n in ir.walk_nodes(r["body"]) if n.get("k") == "call" and (n.get("q") or "").endswith("TileCoord3::new") and len(n.get("a", ())) == 3]
+        lets = comp.lets_of(r)
+        depth = {}
+        for n, parents, _ in ir.walk(r["body"]):
+            if n.get("k") == "let" and n["pat"].get("k") in ("bind", "tstruct"):
+                for x in ir.pat_binds(n["pat"]):
+                    depth[x["hid"]] = sum(1 for p_ in parents if p_.get("k") == "for")
+
+        def comp_index(e, d=0):
+            """constant index into a Vec<&str> of path components this expression is parsed from (through lets), or None"""
+            if e is None or d > 6:
+                return None
+            for y in ir.walk_nodes(e):
+                if y.get("k") == "index" and "Vec<&str>" in ((ir.strip(y["e"]).get("t") or "") + (ir.strip(y["e"]).get("ta") or "")):
+                    v = ir.const_eval(y["i"], {})
+                    if v is not None:
+                        return v
+            for y in ir.walk_nodes(e):
+                if y.get("k") == "path" and y.get("r") == "local" and y["hid"] in lets:
+                    v = comp_index(lets[y["hid"]], d + 1)
+                    if v is not None:
+                        return v
+            return None
+        okm, shown = False, "?"
+        if len(tc) == 1:
+            if fmt == "tar":
+                idx = [comp_index(a) for a in tc[0]["a"]]       # (x, y, z)
+                okm = idx == [1, 2, 0]
+                shown = "x,y,z from components %s" % idx
+            else:
+                def root_depth(e, d=0):
+                    h = ir.local_hid(e)
+                    if h is None or d > 6:
+                        return None
+                    init = lets.get(h)
+                    cur = depth.get(h)
+                    return cur
+                dps = [root_depth(a) for a in tc[0]["a"]]
+                okm = dps == [2, 3, 1]
+                shown = "x,y,z bound at directory depth %s" % dps
+        ck.check(okm, "R-NAME", fmt + "|reader-components", "%s reader: path components z/x/y reach TileCoord3::new(x, y, z) in that role (%s)" % (fmt, shown),
+                 "%s reader builds the coordinate from the wrong path components (%s, expected z/x/y = 1st/2nd/3rd)" % (fmt, shown), ir.loc(r))
     # tar reader: leading "." component dropped
     tr = fn(P, "tar::reader::TarTilesReader::open_path")
     if tr:
